@@ -46,6 +46,10 @@ var apiTexts = map[string]string{
 	"heir":     "{ // {allOf: \"@typeObj\"}\n  \"hk\": 1\n}",
 	"typeObj":  "{\n  \"ok\": 1\n}",
 	"usesHeir": `{"r": @heir}`,
+	// plan shared-parent: heirs of one and of two types (the second root is created with keys optional by default)
+	"heirOfTwo": "{} // {allOf: [\"@typeObj\", \"@typeObj2\"]}",
+	"heirOfOne": "{ // {allOf: \"@typeObj\"}\n  \"b\": 1\n}",
+	"typeObj2":  "{\n  \"ok2\": 2\n}",
 	// a type that refers to another one, @id, which two roots define differently
 	"usesItem": `{"item": @item}`,
 	"item":     "{\n  \"id\": @id,\n  \"n\": 1\n}",
@@ -178,6 +182,9 @@ func (w *apiWorld) call(op, obj, arg string) (res string, h *heldResult, panicke
 	case "New":
 		w.objs[obj] = jschema.New("schema-"+arg, apiTexts[arg])
 		w.content[obj] = arg
+		if arg == "heirOfOne" {
+			w.objs[obj].AreKeysOptionalByDefault = true
+		}
 		if arg == "usesRule" {
 			_ = w.objs[obj].AddRule("@animals", w.rule)
 		}
@@ -289,6 +296,21 @@ func apiDefectSources(content string, regs []string) int {
 		case "rootRef":
 			if !hasObj {
 				n++
+			}
+		case "heirOfTwo", "heirOfOne":
+			if !hasObj {
+				n++
+			}
+			if c == "heirOfTwo" {
+				has2 := false
+				for _, r := range regs {
+					if r == "typeObj2" {
+						has2 = true
+					}
+				}
+				if !has2 {
+					n++
+				}
 			}
 		case "usesItem", "item":
 			has := func(x string) bool {
